@@ -46,7 +46,7 @@ func convertObjectToASTNode(obj object.Object) ast.Node {
 		t := token.Intern(token.INT, strconv.FormatInt(obj.Value, 10))
 		r := ast.IntegerLiteral{Val: obj.Value}
 		r.Token = t
-		return r
+		return &r // a pointer like the parser makes (evaluation only knows that form).
 	case object.Boolean:
 		var t *token.Token
 		if obj.Value {
@@ -54,7 +54,7 @@ func convertObjectToASTNode(obj object.Object) ast.Node {
 		} else {
 			t = token.FALSET
 		}
-		return ast.Boolean{Base: ast.Base{Token: t}, Val: obj.Value}
+		return &ast.Boolean{Base: ast.Base{Token: t}, Val: obj.Value}
 	case object.Float:
 		r := ast.FloatLiteral{Val: obj.Value}
 		r.Token = token.Intern(token.FLOAT, strconv.FormatFloat(obj.Value, 'g', -1, 64))
